@@ -338,7 +338,7 @@ def main():
                 check_line(mn[2] if ISA == "x86" else "ldr", [a, b], lay, "pair")
     # ---------------------------------------------------------------- files: numbering, verbatim text, classification
     inst = ["addq %rax, %rbx", "vmovapd (%r15,%rax), %ymm0", "jne .L10"] if ISA == "x86" else ["add x1, x2, x3", "ldr q0, [x1, x2]", "b.ne .L10"]
-    other = {"comment": [CM + " only a comment", CM, CM + " gr\u00f6\u00dfe \u00b5s"], "label": [".L10:", "main:", ".LBB0_1: " + CM + " with comment", ".L.str.1:", ".L_2__STRING.0:", "..B1.4:"], "directive": [".p2align 4", ".byte 100,103,144", ".text"],
+    other = {"comment": [CM + " only a comment", CM, CM + " gr\u00f6\u00dfe \u00b5s"], "label": [".L10:", "main:", ".LBB0_1: " + CM + " with comment", ".L.str.1:", ".L_2__STRING.0:", "..B1.4:", "1:", "42: " + CM + " local numeric label"], "directive": [".p2align 4", ".byte 100,103,144", ".text"],
              "blank": ["", "   ", "\t"]}
     for fi in range(60 if A.tier != "thorough" else 600):
         lines, kinds = [], []
